@@ -1115,7 +1115,7 @@ func main() {
 		"packets over the grid payload length {0,1,2,254..257,65534..65537,100000[,256 KiB]} x tag count {0,1,2,255,256} (quick tier: lengths >= 65534 with 1-3 tag counts each and four chunkings; thorough: the full product, 256 KiB with tags {0,256}, and 32767/32768 tags with payload lengths 0 and 255) with random id/job/flag word/device, "+
 			"each marshalled by the real code (bytes compared with the model) and read back through a chunking io.Reader replaying all-at-once / 1-byte / random / "+
 			"boundary+-1 splits with 0-64 trailing bytes (fields and bytes consumed compared); the same for the nested stream form (Chunk container and data.NewReader); "+
-			"concatenated packets; truncations at every offset, every class byte, forged 2^32/2^63 lengths; flag setters on random and single-bit words. "+
+			"concatenated packets; packets in every read-cursor state of their payload Chunk (fresh, typed reads partial / to EOF, Read partial / all / drained, Seek start/mid/end/back, marshalled before, received then read) each followed by a second packet on the same stream, wire and nested form; truncations at every offset, every class byte, forged 2^32/2^63 lengths; flag setters on random and single-bit words. "+
 			"distinct = distinct Coq case term; non-trivial = input longer than a bare header (flags: non-zero word)")
 	out.ShardSize = 60
 	rng = vh.NewRand(fl.Seed)
@@ -1221,6 +1221,12 @@ func main() {
 		}
 		manyCase(ps)
 		streamManyCase(ps)
+	}
+	// packets whose payload Chunk has been read, rewound, sought, received or marshalled before
+	if thorough {
+		cursorCases(40, 10)
+	} else {
+		cursorCases(4, 2)
 	}
 	malformed()
 
